@@ -3,6 +3,8 @@ simulate the arrivals of run."""
 import collections
 import io
 import math
+import os
+import random
 from fractions import Fraction as F
 
 from harness.impl import Q, enc_list
@@ -255,6 +257,32 @@ SHORT_PRODUCTS = {tps: [k / tps for k in range(1, 2500 if tps == 1000 else 400) 
                   for tps in (100, 1000, 10000, 60, 333)}
 
 
+def gentrace_cli(params):
+    """the text `eudoxia gentrace` writes for a parameter file holding exactly `params`"""
+    import contextlib
+    import logging
+    import tempfile
+    import tomlkit
+    from eudoxia.__main__ import gentrace_command
+    with tempfile.TemporaryDirectory(prefix='c13g') as d:
+        pf, of = os.path.join(d, 'params.toml'), os.path.join(d, 'trace.csv')
+        with open(pf, 'w') as f:
+            f.write(tomlkit.dumps(dict(params)))
+        logging.disable(logging.CRITICAL)
+        try:
+            with contextlib.redirect_stdout(io.StringIO()), contextlib.redirect_stderr(io.StringIO()):
+                try:
+                    gentrace_command(pf, of)
+                except SystemExit as e:
+                    return f'<gentrace exited with {e.code}>'
+                except Exception as e:      # noqa
+                    return f'<gentrace raised {type(e).__name__}: {e}>'
+        finally:
+            logging.disable(logging.NOTSET)
+        with open(of, newline='') as f:
+            return f.read()
+
+
 def gentrace_case(rec):
     params = get_param_defaults()
     params.update(rec['params'])
@@ -291,6 +319,16 @@ def gentrace_case(rec):
         hits.append(dict(desc=f'trace has {len(cells)} pipelines, generator produced {len(gen_ticks)} in {len(rw.counts)} '
                               f'ticks (max_ticks {tg.max_ticks})', signature='roundtrip-count', recipe=rec, gen=rec['gen']))
         gen_ticks = (gen_ticks + [0] * len(cells))[:len(cells)]
+    # the command-line route: `eudoxia gentrace params.toml out.csv` must write the trace of THESE parameters (the very
+    # text the generator + trace generator + writer give above), whatever their values (seed 0, a zero probability)
+    cli = gentrace_cli(rec['params'])
+    if cli != text:
+        a, b = cli.splitlines(), text.splitlines()
+        k = next((i for i, (x, y) in enumerate(zip(a, b)) if x != y), min(len(a), len(b)))
+        hits.append(dict(desc=f'`eudoxia gentrace` with {rec["params"]} wrote {len(a)} lines, the generator with the same '
+                              f'parameters produces {len(b)}; first difference in line {k + 1}: '
+                              f'{(a[k] if k < len(a) else "<end>")[:90]!r} instead of {(b[k] if k < len(b) else "<end>")[:90]!r}',
+                         signature='roundtrip-cli', recipe=rec, gen=rec['gen']))
     per_tick = replay_real(text, tps, 0, nticks, ids)
     for sig, desc in roundtrip_monitor(tps, nticks, gen_ticks, cells, per_tick):
         hits.append(dict(desc=desc, signature=sig, recipe=rec, gen=rec['gen']))
@@ -419,6 +457,16 @@ def gentrace_recipe(rng):
                   random_seed=rng.randint(0, 10 ** 6))
     if SHORT_PRODUCTS.get(tps) and rng.random() < 0.5:
         params['duration'] = rng.choice(SHORT_PRODUCTS[tps])
+    # zero-valued parameters are values like any other (drawn last, from a side stream, so that the cases above stay put)
+    r2 = random.Random(rng.random())
+    if r2.random() < 0.2:
+        params['random_seed'] = 0
+    z = r2.random()
+    if z < 0.3:
+        a = r2.choice([0.25, 0.5, 0.75])
+        triple = [0.0, a, 1 - a]
+        r2.shuffle(triple)
+        params.update(interactive_prob=triple[0], query_prob=triple[1], batch_prob=triple[2])
     return dict(gen='G-gentrace', params=params)
 
 
